@@ -103,6 +103,8 @@ func (h *theap) Pop() interface{} {
 	return t
 }
 
+var handoffTimer *time.Timer // only used by Advance (single harness goroutine)
+
 var (
 	mu      sync.Mutex
 	virtual bool
@@ -194,10 +196,27 @@ func Advance(d time.Duration) {
 			select {
 			case t.ch <- fireAt:
 			case <-t.stop:
-			case <-time.After(handoffWait):
-				mu.Lock()
-				Undelivered++
-				mu.Unlock()
+			default:
+				// receiver busy: wait for it with a (reused) real-time bound
+				if handoffTimer == nil {
+					handoffTimer = time.NewTimer(handoffWait)
+				} else {
+					handoffTimer.Reset(handoffWait)
+				}
+				select {
+				case t.ch <- fireAt:
+				case <-t.stop:
+				case <-handoffTimer.C:
+					mu.Lock()
+					Undelivered++
+					mu.Unlock()
+				}
+				if !handoffTimer.Stop() {
+					select {
+					case <-handoffTimer.C:
+					default:
+					}
+				}
 			}
 		default:
 			select {
@@ -212,6 +231,19 @@ func Advance(d time.Duration) {
 }
 
 const handoffWait = 20 * time.Second
+
+// Jump moves the virtual clock forward by d without firing anything: every
+// armed timer and ticker is shifted by d as well, as if the loops owning them
+// had not been scheduled meanwhile. Harnesses use it when only the passage of
+// time matters (expiry, ageing) and no timer of the system under test does.
+func Jump(d time.Duration) {
+	mu.Lock()
+	now = now.Add(d)
+	for _, t := range timers {
+		t.when = t.when.Add(d)
+	}
+	mu.Unlock()
+}
 
 func Now() Time {
 	mu.Lock()
